@@ -1,7 +1,7 @@
 (* C03/Property.v — the property theorems and nothing else. *)
 From Coq Require Import List Reals.
 Import ListNotations.
-From SM Require Import Base.Num C03.Model C03.Proofs.
+From SM Require Import Base.Num C03.Model C03.Proofs C03.Extend.
 Open Scope R_scope.
 
 (* pinhole: for every grid, point and width, the column of the weight matrix is
@@ -39,3 +39,28 @@ Print Assumptions C03_affine.
 Theorem C03_constant : forall k col n, length col = n -> sumL ROps col = 1 -> apply ROps (repeat k n) col = k.
 Proof. exact constant_preserved. Qed.
 Print Assumptions C03_constant.
+
+(* ---- the theory is requested at strictly positive |q| values that span every resolution window ----
+   Model of the default pinhole calculation grid (pinhole_extend_q, linear_extrapolation, then the low-|q| cut
+   and abs of Pinhole1D.__init__; C03/Extend.v), for every data set, widths and extension counts >= 1: before the
+   cut the grid starts at or below q_i - 2.5 w_i (+ 2 MINIMUM_RESOLUTION) and ends at or above q_i + 3 w_i
+   (- 2 MINIMUM_RESOLUTION) for EVERY data point i, it contains every data point, and after the cut every
+   requested value is at least 0.02 min(q) > 0 while every point at or beyond the cutoff is kept. *)
+Theorem C03_default_grid_covers : forall minres2, (0 <= minres2)%R ->
+  forall (q w : list R) nlo nhi n_low n_high i,
+  length q = length w -> (i < length q)%nat -> (1 <= n_low)%nat -> (1 <= n_high)%nat ->
+  let g := pinhole_extend ROps minres2 q w nlo nhi n_low n_high in
+  (hd 0 g <= nth i q 0 - nlo * nth i w 0 + minres2)%R /\ (nth i q 0 + nhi * nth i w 0 - minres2 <= last g 0)%R.
+Proof. exact pinhole_extend_covers. Qed.
+Print Assumptions C03_default_grid_covers.
+
+Theorem C03_default_grid_contains_data : forall minres2 (q : list R) q_min q_max n_low n_high x,
+  In x q -> In x (lin_extrap ROps minres2 q q_min q_max n_low n_high).
+Proof. exact lin_extrap_contains. Qed.
+Print Assumptions C03_default_grid_contains_data.
+
+Theorem C03_requested_q_positive : forall cutoff l x, (0 < cutoff)%R ->
+  (In x (positive_cut ROps cutoff l) -> (cutoff <= x)%R /\ (0 < x)%R) /\
+  ((cutoff <= Rabs x)%R -> In x l -> In (Rabs x) (positive_cut ROps cutoff l)).
+Proof. intros cutoff l x Hc. split; [apply positive_cut_positive; exact Hc | apply positive_cut_keeps]. Qed.
+Print Assumptions C03_requested_q_positive.
